@@ -40,6 +40,10 @@ var c19Out = flag.String("c19out", "", "C19 child: result file")
 var c19NoHashFlag = flag.Bool("c19nohash", false, "C19 child: base file without row data hashes")
 var c19NoHash bool
 
+// c19Twins selects the base file whose two blocks have identical extents (set from the
+// compression argument's "-twins" suffix in the child).
+var c19Twins bool
+
 type c19base struct {
 	noHash bool // blocks carry no row data hash: content oracles are off (corruption is undetectable), only cleanliness is asserted
 	data   []byte
@@ -131,6 +135,10 @@ func c19BaseFile(comp bs.CompressionType) (*c19base, error) {
 	if comp == "big" {
 		return c19BigBase()
 	}
+	if strings.HasSuffix(string(comp), "-twins") {
+		c19Twins = true
+		comp = bs.CompressionType(strings.TrimSuffix(string(comp), "-twins"))
+	}
 	cfg := quietConfig()
 	cfg.RowDataCompression = comp
 	cfg.ZstdCompressionLevel = 3
@@ -144,6 +152,13 @@ func c19BaseFile(comp bs.CompressionType) (*c19base, error) {
 	rows := []map[string]any{
 		{"id": 1, "p": "a", "msg": "alpha one"}, {"id": 2, "p": "a", "msg": "beta two"}, {"id": 3, "p": "a", "msg": "gamma"},
 		{"id": 4, "p": "b", "msg": "alpha four"}, {"id": 5, "p": "b", "msg": "delta"}, {"id": 6, "p": "b", "msg": "omega six"},
+	}
+	if c19Twins {
+		// two blocks of identical shape: same row count, same compressed and uncompressed size
+		rows = []map[string]any{
+			{"id": 1, "p": "a", "msg": "alpha one"}, {"id": 2, "p": "a", "msg": "betas two"}, {"id": 3, "p": "a", "msg": "gamma"},
+			{"id": 4, "p": "b", "msg": "omega six"}, {"id": 5, "p": "b", "msg": "zetas ten"}, {"id": 6, "p": "b", "msg": "delta"},
+		}
 	}
 	if err := w.Put(rows); err != nil {
 		return nil, err
@@ -305,6 +320,19 @@ func forEachArtefact(b *c19base, family string, shard, shards int, fn func(a art
 				// duplicate [a,c) in place
 				d2 := append(append(append([]byte(nil), b.data[:c]...), b.data[a:c]...), b.data[c:]...)
 				emit(fmt.Sprintf("dup[%d,%d)", a, c), d2)
+			}
+		}
+	case "overwrite":
+		// a block's row data extent replaced by another block's (individually valid) stream of the
+		// same compressed and uncompressed size; only the row data hash can tell
+		for i, bi := range b.meta.DataBlocks {
+			for j, bj := range b.meta.DataBlocks {
+				if i == j || bi.RowDataSize != bj.RowDataSize || bi.UncompressedSize != bj.UncompressedSize {
+					continue
+				}
+				d := append([]byte(nil), b.data...)
+				copy(d[bi.RowDataOffset:bi.RowDataOffset+bi.RowDataSize], b.data[bj.RowDataOffset:bj.RowDataOffset+bj.RowDataSize])
+				emit(fmt.Sprintf("rowdata[b%d]:=rowdata[b%d]", i, j), d)
 			}
 		}
 	case "framing", "framing-pairs", "framing-struct", "framing-struct-pairs":
@@ -662,6 +690,16 @@ func init() {
 				}
 			}
 			fams["framing-struct"] = 1
+			for _, c := range []string{"none-twins", "snappy-twins"} {
+				c := c
+				cs = append(cs, Case{ID: "overwrite/" + c, Run: func() CaseResult {
+					r := c19Parent("overwrite", c, 0, 1)
+					if r.Evals == 0 && len(r.Findings) == 0 {
+						r.Capped = "the twin blocks of the " + c + " base do not have equal extents: no overwrite artefact could be built"
+					}
+					return r
+				}})
+			}
 			for _, c := range comps {
 				names := make([]string, 0)
 				for f := range fams {
@@ -680,7 +718,7 @@ func init() {
 			}
 			return cs
 		},
-		Rule:        "engine-written base file (2 blocks x 3 rows) per compression; exhaustively: every byte x {8 single-bit flips, 0x00, 0xFF, +1}; every 2-8 byte window x {zero, ones, inverted}; every truncation length; extensions; deletions and duplications between all pairs of structural boundaries ±1; CRC-consistent footers with every framing field (and, thorough, every pair) set to boundary values, and with the filter region / every filter section offset and size set to every structural offset and extent of the file +-1 (also on a file whose middle block's filter section exceeds the 4 MiB chunk target; thorough: every pair); each artefact goes through ReadFileMetadata, the block helpers, a scan, and 3 queries in two flows (file describes itself / MetaStore holds the original metadata); oracle: no panic, no negative seek, allocation <= 256 x file size + 8 MiB, rows ⊆ written, exact-or-error when the MetaStore holds the metadata; independently of checksums, decoded or stored-uncompressed row data that is not a sequence of whole length-prefixed rows must make the scanner and the match-all query report an error",
+		Rule:        "engine-written base file (2 blocks x 3 rows) per compression; exhaustively: every byte x {8 single-bit flips, 0x00, 0xFF, +1}; every 2-8 byte window x {zero, ones, inverted}; every truncation length; extensions; deletions and duplications between all pairs of structural boundaries ±1; a block's row data overwritten by a sibling block's valid stream of identical extent (twin-block base, uncompressed and snappy); CRC-consistent footers with every framing field (and, thorough, every pair) set to boundary values, and with the filter region / every filter section offset and size set to every structural offset and extent of the file +-1 (also on a file whose middle block's filter section exceeds the 4 MiB chunk target; thorough: every pair); each artefact goes through ReadFileMetadata, the block helpers, a scan, and 3 queries in two flows (file describes itself / MetaStore holds the original metadata); oracle: no panic, no negative seek, allocation <= 256 x file size + 8 MiB, rows ⊆ written, exact-or-error when the MetaStore holds the metadata; independently of checksums, decoded or stored-uncompressed row data that is not a sequence of whole length-prefixed rows must make the scanner and the match-all query report an error",
 		Assumptions: []string{"UncompressedSize is not in the property's list of arbitrary framing fields and is left valid"},
 	}
 }
